@@ -1,7 +1,7 @@
 (* C05: flag facts, ownership of created objects, refinement of the exported tree and of the replies by
    the direct system calls, per request and along whole histories. *)
 From Coq Require Import List NArith Bool Lia.
-From FB Require Import Gen.Validators Model.Names Model.HostFs Model.Passthrough Proofs.HostFs Proofs.PassthroughConfined Proofs.PassthroughCreds.
+From FB Require Import Gen.Validators Model.Names Model.HostFs Model.Passthrough Proofs.Names Proofs.HostFs Proofs.PassthroughConfined Proofs.PassthroughCreds.
 Import ListNotations.
 Local Open Scope N_scope.
 
@@ -99,7 +99,7 @@ Definition kp_open (cf : cfg) (fuse_flags : N) : bool := c_killpriv cf && has fu
 Definition caller_creds_kp (kp : bool) (uid gid : N) : creds := mkCreds uid gid ((uid =? 0) && negb kp).
 Definition root_kp (kp : bool) : creds := mkCreds 0 0 (negb kp).
 
-Definition I (s : pstate) (f : N) : option N := option_map id_host (assoc f (p_inodes s)).
+Definition Ino (s : pstate) (f : N) : option N := option_map id_host (assoc f (p_inodes s)).
 
 (* reopening an inode of the map for I/O: the gate on the recorded file type, then the magic-link open *)
 Definition direct_open (cf : cfg) (c : creds) (tbl : list (N * idata)) (h : host) (inode flags : N) : res (N * N) * host :=
@@ -141,35 +141,35 @@ Definition direct_host (cf : cfg) (s : pstate) (q : req) : host :=
   let h := p_host s in
   match q with
   | QMkdir p n mode umask uid gid =>
-      match validate cf n, I s p with
+      match validate cf n, Ino s p with
       | None, Some d => snd (sys_mkdirat (caller_creds uid gid) h d n (N.ldiff mode umask))
       | _, _ => h end
   | QMknod p n mode rdev umask uid gid =>
-      match validate cf n, I s p with
+      match validate cf n, Ino s p with
       | None, Some d => snd (sys_mknodat (caller_creds uid gid) h d n (N.ldiff mode umask) rdev)
       | _, _ => h end
   | QSymlink p n t uid gid =>
-      match validate cf n, I s p with
+      match validate cf n, Ino s p with
       | None, Some d => snd (sys_symlinkat (caller_creds uid gid) h t d n)
       | _, _ => h end
   | QUnlink p n =>
-      match validate cf n, I s p with None, Some d => snd (sys_unlinkat root_creds h d n 0) | _, _ => h end
+      match validate cf n, Ino s p with None, Some d => snd (sys_unlinkat root_creds h d n 0) | _, _ => h end
   | QRmdir p n =>
-      match validate cf n, I s p with None, Some d => snd (sys_unlinkat root_creds h d n AT_REMOVEDIR) | _, _ => h end
+      match validate cf n, Ino s p with None, Some d => snd (sys_unlinkat root_creds h d n AT_REMOVEDIR) | _, _ => h end
   | QRename od on nd nn flags =>
-      match validate cf on, validate cf nn, I s od, I s nd with
+      match validate cf on, validate cf nn, Ino s od, Ino s nd with
       | None, None, Some a, Some b => snd (sys_renameat2 root_creds h a on b nn flags)
       | _, _, _, _ => h end
   | QLink i p n =>
-      match validate cf n, I s i, I s p with
+      match validate cf n, Ino s i, Ino s p with
       | None, Some a, Some b => snd (sys_linkat root_creds h a b n)
       | _, _, _ => h end
   | QSetxattr i n v flags =>
       if negb (c_xattr cf) then h else
-      match I s i with Some a => snd (sys_setxattr root_creds h a n v flags) | None => h end
+      match Ino s i with Some a => snd (sys_setxattr root_creds h a n v flags) | None => h end
   | QRemovexattr i n =>
       if negb (c_xattr cf) then h else
-      match I s i with Some a => snd (sys_removexattr root_creds h a n) | None => h end
+      match Ino s i with Some a => snd (sys_removexattr root_creds h a n) | None => h end
   | QOpen inode flags ff =>
       if c_no_open cf then h else snd (direct_open cf (root_kp (kp_open cf ff)) (p_inodes s) h inode flags)
   | QOpendir inode flags =>
@@ -441,7 +441,7 @@ Qed.
 
 Theorem tree_full : C05_full.
 Proof.
-  intros cf s q rp io ho s' Hc H. unfold pstep in H. unfold direct_host, I. destruct q; cbv beta zeta in H |- *.
+  intros cf s q rp io ho s' Hc H. unfold pstep in H. unfold direct_host, Ino. destruct q; cbv beta zeta in H |- *.
   - (* lookup *)
     destruct (lookup_check n); [inv4 H; reflexivity|].
     destruct (entry_reply (do_lookup s parent n)) as [[rp0 io0] s0] eqn:He. inv4 H. apply (entry_reply_host _ _ _ _ _ _ He).
@@ -622,4 +622,277 @@ Proof.
   - (* statfs *) destruct (assoc inode (p_inodes s)); inv4 H; reflexivity.
   - (* access *)
     destruct (assoc inode (p_inodes s)); [|inv4 H; reflexivity]. destruct (stat (p_host s) (id_host i)); inv4 H; reflexivity.
+Qed.
+
+(* ---- history level: along every history, after each request the tree is the tree after the direct
+   calls of that request (descriptors are resolved through the server's tables at that point) *)
+Fixpoint run_refines (cf : cfg) (r : rstate) (qs : list sreq) : Prop :=
+  match qs with
+  | [] => True
+  | q :: qs' =>
+      let '(_, _, r') := rstep cf r q in
+      p_host (r_p r') = direct_host cf (r_p r) (resolve (r_is r) (r_hs r) q) /\ run_refines cf r' qs'
+  end.
+
+Theorem history_refines : forall cf qs r, p_creds (r_p r) = root_creds -> run_refines cf r qs.
+Proof.
+  intros cf qs. induction qs as [|q qs IH]; intros r Hc; cbn [run_refines]; [exact I|].
+  destruct (rstep cf r q) as [[rp c] r'] eqn:Hs. unfold rstep in Hs.
+  destruct (pstep cf (r_p r) (resolve (r_is r) (r_hs r) q)) as [[[rp0 io] ho] s'] eqn:Hp. inversion Hs; subst. cbn [r_p].
+  split; [apply (tree_full _ _ _ _ _ _ _ Hc Hp)|].
+  apply IH. cbn [r_p]. apply (pstep_creds_restored _ _ _ _ _ _ _ Hc Hp).
+Qed.
+
+(* ---- replies *)
+Definition lookup_reply (c : creds) (h : host) (d : N) (is_root : bool) (n : name) : reply :=
+  match lookup1 c h d (lookup_name is_root n) with
+  | Err e => RpErr e
+  | Ok i => match stat h i with Err e => RpErr e | Ok st => RpEntry st end
+  end.
+Definition res_reply (r : res unit) : reply := match r with Ok _ => RpOk | Err e => RpErr e end.
+
+(* the reply of the direct calls, for the request kinds covered *)
+Definition direct_reply (cf : cfg) (s : pstate) (q : req) : option reply :=
+  let h := p_host s in
+  let entry_after (p : N) (n : name) (d : N) (x : res N * host) :=
+    match x with
+    | (Err e, _) => RpErr e
+    | (Ok _, h') => lookup_reply root_creds h' d (p =? ROOT_ID) n
+    end in
+  match q with
+  | QLookup p n =>
+      Some (match lookup_check n with
+            | Some e => RpErr e
+            | None => match Ino s p with None => RpErr EBADF | Some d => lookup_reply root_creds h d (p =? ROOT_ID) n end
+            end)
+  | QGetattr inode handle =>
+      Some (match do_getattr cf s inode handle with Ok a => RpAttr a | Err e => RpErr e end)
+  | QMkdir p n mode umask uid gid =>
+      Some (match validate cf n, Ino s p with
+            | Some e, _ => RpErr e | None, None => RpErr EBADF
+            | None, Some d => entry_after p n d (sys_mkdirat (caller_creds uid gid) h d n (N.ldiff mode umask)) end)
+  | QMknod p n mode rdev umask uid gid =>
+      Some (match validate cf n, Ino s p with
+            | Some e, _ => RpErr e | None, None => RpErr EBADF
+            | None, Some d => entry_after p n d (sys_mknodat (caller_creds uid gid) h d n (N.ldiff mode umask) rdev) end)
+  | QSymlink p n t uid gid =>
+      Some (match validate cf n, Ino s p with
+            | Some e, _ => RpErr e | None, None => RpErr EBADF
+            | None, Some d => entry_after p n d (sys_symlinkat (caller_creds uid gid) h t d n) end)
+  | QUnlink p n =>
+      Some (match validate cf n, Ino s p with
+            | Some e, _ => RpErr e | None, None => RpErr EBADF
+            | None, Some d => res_reply (fst (sys_unlinkat root_creds h d n 0)) end)
+  | QRmdir p n =>
+      Some (match validate cf n, Ino s p with
+            | Some e, _ => RpErr e | None, None => RpErr EBADF
+            | None, Some d => res_reply (fst (sys_unlinkat root_creds h d n AT_REMOVEDIR)) end)
+  | QRename od on nd nn flags =>
+      Some (match validate cf on with Some e => RpErr e | None =>
+            match validate cf nn with Some e => RpErr e | None =>
+            match Ino s od, Ino s nd with
+            | Some a, Some b => res_reply (fst (sys_renameat2 root_creds h a on b nn flags))
+            | _, _ => RpErr EBADF end end end)
+  | QReadlink i =>
+      Some (match Ino s i with None => RpErr EBADF
+            | Some a => match sys_readlink h a with Ok t => RpData t | Err e => RpErr e end end)
+  | _ => None
+  end.
+
+Lemma do_lookup_reply : forall s p n r s2 dir, assoc p (p_inodes s) = Some dir -> do_lookup s p n = (r, s2) ->
+  fst (fst (entry_reply (r, s2))) = lookup_reply (p_creds s) (p_host s) (id_host dir) (p =? ROOT_ID) n.
+Proof.
+  intros s p n r s2 dir Ha H. destruct (do_lookup_spec _ _ _ _ _ _ Ha H) as [_ [_ [_ Hsp]]]. unfold lookup_reply.
+  destruct (lookup1 (p_creds s) (p_host s) (id_host dir) (lookup_name (p =? ROOT_ID) n)) as [i|e].
+  - destruct (stat (p_host s) i) as [st|e].
+    + destruct Hsp as [f [d' [-> _]]]. reflexivity.
+    + destruct Hsp as [-> _]. reflexivity.
+  - destruct Hsp as [-> _]. reflexivity.
+Qed.
+
+Lemma create_then_lookup_reply : forall s uid gid parent n call rp io s' d,
+  p_creds s = root_creds -> assoc parent (p_inodes s) = Some d ->
+  create_then_lookup s uid gid parent n call = (rp, io, s') ->
+  rp = match call (caller_creds uid gid) (p_host s) (id_host d) with
+       | (Err e, _) => RpErr e
+       | (Ok _, h') => lookup_reply root_creds h' (id_host d) (parent =? ROOT_ID) n
+       end.
+Proof.
+  intros s uid gid parent n call rp io s' d Hc Ha H. unfold create_then_lookup in H. rewrite Ha in H.
+  match type of H with context [with_creds uid gid s ?b] =>
+    destruct (with_creds_from_root_r _ uid gid s b Hc) as [r [s1 [Hb Hw]]];
+    [ intros s0 r0 s9 Hk; destruct (call (p_creds s0) (p_host s0) (id_host d)); inversion Hk; subst; reflexivity
+    | rewrite Hw in H; clear Hw ] end.
+  cbn [p_creds p_host with_creds_of] in Hb.
+  destruct (call (caller_creds uid gid) (p_host s) (id_host d)) as [r1 h'] eqn:Hcall.
+  inversion Hb; subst r1 s1. destruct r as [i0|e]; [|inversion H; subst; reflexivity].
+  destruct (do_lookup _ parent n) as [rl s2] eqn:Hl.
+  pose proof (do_lookup_reply (with_creds_of (with_host (with_creds_of s (caller_creds uid gid)) h') root_creds) _ _ _ _ d Ha Hl) as Hr.
+  cbn [p_creds p_host with_creds_of with_host] in Hr.
+  destruct (entry_reply (rl, s2)) as [[rp0 io0] s0] eqn:He. inversion H; subst. exact Hr.
+Qed.
+
+Theorem reply_refines : forall cf s q rp io ho s' dr,
+  p_creds s = root_creds -> direct_reply cf s q = Some dr -> pstep cf s q = (rp, io, ho, s') -> rp = dr.
+Proof.
+  intros cf s q rp io ho s' dr Hc Hd H. unfold pstep in H. unfold direct_reply, Ino in Hd.
+  destruct q; try discriminate Hd; cbv beta zeta in H, Hd; inversion Hd; subst dr; clear Hd.
+  - (* lookup *)
+    destruct (lookup_check n); [inv4 H; reflexivity|].
+    destruct (assoc parent (p_inodes s)) as [d|] eqn:Ha; cbn [option_map].
+    + destruct (do_lookup s parent n) as [rl s2] eqn:Hl. pose proof (do_lookup_reply _ _ _ _ _ _ Ha Hl) as Hr.
+      destruct (entry_reply (rl, s2)) as [[rp0 io0] s0]. inv4 H. rewrite Hc in Hr. exact Hr.
+    + unfold do_lookup in H. rewrite Ha in H. inv4 H. reflexivity.
+  - (* getattr *) destruct (do_getattr cf s inode handle); inv4 H; reflexivity.
+  - (* mkdir *)
+    destruct (validate cf n); [inv4 H; reflexivity|].
+    destruct (assoc parent (p_inodes s)) as [d|] eqn:Ha; cbn [option_map].
+    + match type of H with context [create_then_lookup ?a ?b ?c ?d0 ?e ?f] => destruct (create_then_lookup a b c d0 e f) as [[rp0 io0] s0] eqn:Hx end.
+      inv4 H. rewrite (create_then_lookup_reply _ _ _ _ _ _ _ _ _ _ Hc Ha Hx).
+      destruct (sys_mkdirat (caller_creds uid gid) (p_host s) (id_host d) n (N.ldiff mode umask)) as [[i0|e] h']; reflexivity.
+    + unfold create_then_lookup in H. rewrite Ha in H. inv4 H. reflexivity.
+  - (* mknod *)
+    destruct (validate cf n); [inv4 H; reflexivity|].
+    destruct (assoc parent (p_inodes s)) as [d|] eqn:Ha; cbn [option_map].
+    + match type of H with context [create_then_lookup ?a ?b ?c ?d0 ?e ?f] => destruct (create_then_lookup a b c d0 e f) as [[rp0 io0] s0] eqn:Hx end.
+      inv4 H. rewrite (create_then_lookup_reply _ _ _ _ _ _ _ _ _ _ Hc Ha Hx).
+      destruct (sys_mknodat (caller_creds uid gid) (p_host s) (id_host d) n (N.ldiff mode umask) rdev) as [[i0|e] h']; reflexivity.
+    + unfold create_then_lookup in H. rewrite Ha in H. inv4 H. reflexivity.
+  - (* symlink *)
+    destruct (validate cf n); [inv4 H; reflexivity|].
+    destruct (assoc parent (p_inodes s)) as [d|] eqn:Ha; cbn [option_map].
+    + match type of H with context [create_then_lookup ?a ?b ?c ?d0 ?e ?f] => destruct (create_then_lookup a b c d0 e f) as [[rp0 io0] s0] eqn:Hx end.
+      inv4 H. rewrite (create_then_lookup_reply _ _ _ _ _ _ _ _ _ _ Hc Ha Hx).
+      destruct (sys_symlinkat (caller_creds uid gid) (p_host s) target (id_host d) n) as [[i0|e] h']; reflexivity.
+    + unfold create_then_lookup in H. rewrite Ha in H. inv4 H. reflexivity.
+  - (* unlink *)
+    destruct (validate cf n); [inv4 H; reflexivity|].
+    destruct (assoc parent (p_inodes s)) as [d|]; cbn [option_map]; [|inv4 H; reflexivity].
+    rewrite Hc in H. destruct (sys_unlinkat root_creds (p_host s) (id_host d) n 0) as [[u|e] h']; inv4 H; reflexivity.
+  - (* rmdir *)
+    destruct (validate cf n); [inv4 H; reflexivity|].
+    destruct (assoc parent (p_inodes s)) as [d|]; cbn [option_map]; [|inv4 H; reflexivity].
+    rewrite Hc in H. destruct (sys_unlinkat root_creds (p_host s) (id_host d) n AT_REMOVEDIR) as [[u|e] h']; inv4 H; reflexivity.
+  - (* rename *)
+    destruct (validate cf on); [inv4 H; reflexivity|].
+    destruct (validate cf nn); [inv4 H; reflexivity|].
+    destruct (assoc olddir (p_inodes s)) as [od|]; cbn [option_map]; [|inv4 H; reflexivity].
+    destruct (assoc newdir (p_inodes s)) as [nd|]; cbn [option_map]; [|inv4 H; reflexivity].
+    rewrite Hc in H. destruct (sys_renameat2 root_creds (p_host s) (id_host od) on (id_host nd) nn flags) as [[u|e] h']; inv4 H; reflexivity.
+  - (* readlink *)
+    destruct (assoc inode (p_inodes s)) as [d|]; cbn [option_map]; [|inv4 H; reflexivity].
+    destruct (sys_readlink (p_host s) (id_host d)); inv4 H; reflexivity.
+Qed.
+
+(* ---- ownership, composed through do_lookup to the Entry the client receives *)
+Lemma ent_find_app_new : forall n i l, ent_find n l = None -> ent_find n (l ++ [(n, i)]) = Some i.
+Proof.
+  induction l as [|[n' i'] r IH]; intros H; cbn in *.
+  - assert (name_eqb n n = true) by (apply name_eqb_eq; reflexivity). rewrite H0. reflexivity.
+  - destruct (name_eqb n' n); [discriminate|]. apply IH. exact H.
+Qed.
+
+Lemma created_then_found : forall c h d dv n k mode i h', create_check c h d n = Ok dv -> d <> h_next h ->
+  create_node c h d dv n k mode = (i, h') ->
+  lookup1 root_creds h' d n = Ok i /\ exists v, get h' i = Some v /\ i_uid v = euid c /\ i_gid v = new_gid c dv.
+Proof.
+  intros c h d dv n k mode i h' Hck Hne Hcn. unfold create_check in Hck.
+  destruct (len n =? 0) eqn:Hl0; [discriminate|]. destruct (has_slash n) eqn:Hsl; [discriminate|].
+  destruct (get h d) as [dv'|] eqn:Hg; [|discriminate].
+  destruct (i_kind dv') as [|ents par dead| |] eqn:Hk; try discriminate.
+  destruct (negb (may c dv' MAY_X)); [discriminate|].
+  destruct (is_dot n || is_dotdot n) eqn:Hdots; [discriminate|].
+  destruct (NAME_MAX <? len n) eqn:Hlen; [discriminate|]. destruct dead; [discriminate|].
+  destruct (ent_find n ents) eqn:Hf; [discriminate|].
+  destruct (may c dv' MAY_W); [|discriminate]. inversion Hck; subst dv'. clear Hck.
+  unfold create_node in Hcn. rewrite alloc_spec in Hcn. inversion Hcn; subst i h'. clear Hcn.
+  apply orb_false_iff in Hdots. destruct Hdots as [Hd1 Hd2].
+  split.
+  - unfold lookup1. rewrite Hl0, Hsl. rewrite get_set_same. unfold add_entry. rewrite Hk. cbn [i_kind].
+    cbn [may root_creds euid N.eqb]. cbn [is_dir_kind andb negb]. rewrite andb_false_r. cbn [negb].
+    rewrite Hd1, Hd2, Hlen. rewrite (ent_find_app_new n (h_next h) ents Hf). reflexivity.
+  - eexists. split.
+    + rewrite get_set_other by (intros E; apply Hne; symmetry; exact E). unfold get. cbn. apply assoc_set_same.
+    + split; reflexivity.
+Qed.
+
+(* the three creating calls that go through create_then_lookup *)
+Definition creating_call (call : creds -> host -> N -> res N * host) (n : name) : Prop :=
+  forall c h d i h', call c h d = (Ok i, h') ->
+    exists dv k mode, create_check c h d n = Ok dv /\ create_node c h d dv n k mode = (i, h').
+
+Lemma mkdirat_creating : forall n mode, creating_call (fun c h d => sys_mkdirat c h d n mode) n.
+Proof.
+  intros n mode c h d i h' H. unfold sys_mkdirat in H. destruct (create_check c h d n) as [dv|e] eqn:Hck; [|discriminate].
+  match type of H with context [create_node c h d dv n ?k ?m] => destruct (create_node c h d dv n k m) as [i0 h0] eqn:Hcn end.
+  inversion H; subst. eauto.
+Qed.
+Lemma symlinkat_creating : forall n t, creating_call (fun c h d => sys_symlinkat c h t d n) n.
+Proof.
+  intros n t c h d i h' H. unfold sys_symlinkat in H. destruct (len t =? 0); [discriminate|].
+  destruct (create_check c h d n) as [dv|e] eqn:Hck; [|discriminate].
+  match type of H with context [create_node c h d dv n ?k ?m] => destruct (create_node c h d dv n k m) as [i0 h0] eqn:Hcn end.
+  inversion H; subst. eauto.
+Qed.
+Lemma mknodat_creating : forall n mode rdev, creating_call (fun c h d => sys_mknodat c h d n mode rdev) n.
+Proof.
+  intros n mode rdev c h d i h' H. unfold sys_mknodat in H.
+  destruct (N.land mode S_IFMT =? S_IFDIR); [discriminate|]. destruct (negb _); [discriminate|].
+  destruct (create_check c h d n) as [dv|e] eqn:Hck; [|discriminate].
+  destruct (_ && negb (euid c =? 0)); [discriminate|].
+  match type of H with context [create_node c h d dv n ?k ?m] => destruct (create_node c h d dv n k m) as [i0 h0] eqn:Hcn end.
+  inversion H; subst. eauto.
+Qed.
+
+Lemma lookup_name_same : forall b n, nul_free n -> is_dotdot n = false -> lookup_name b n = n.
+Proof.
+  intros b n Hnf Hd. unfold lookup_name. destruct b; [|reflexivity]. cbn [andb].
+  destruct (starts_with (with_nul n) parent_dir_cstr) eqn:Hs; [|reflexivity].
+  apply (starts_dotdot n Hnf) in Hs. subst n. discriminate Hd.
+Qed.
+
+(* well-formed host: every existing inode number is below the allocation counter *)
+Definition host_wf (h : host) : Prop := forall i v, get h i = Some v -> i < h_next h.
+
+Theorem owner_entry : forall s uid gid parent n call rp io s' d,
+  p_creds s = root_creds -> host_wf (p_host s) -> nul_free n -> creating_call call n ->
+  assoc parent (p_inodes s) = Some d ->
+  create_then_lookup s uid gid parent n call = (rp, io, s') ->
+  forall a, rp = RpEntry a ->
+  a_uid a = uid /\ exists dv, get (p_host s) (id_host d) = Some dv /\
+                              a_gid a = (if has (i_mode dv) S_ISGID then i_gid dv else gid).
+Proof.
+  intros s uid gid parent n call rp io s' d Hc Hwf Hnf Hcall Ha H a Hrp.
+  rewrite (create_then_lookup_reply _ _ _ _ _ _ _ _ _ _ Hc Ha H) in Hrp.
+  destruct (call (caller_creds uid gid) (p_host s) (id_host d)) as [[i0|e] h'] eqn:Hcl; [|discriminate].
+  destruct (Hcall _ _ _ _ _ Hcl) as [dv [k [mode [Hck Hcn]]]].
+  destruct (create_check_ok _ _ _ _ _ Hck) as [Hgd _].
+  assert (Hne : id_host d <> h_next (p_host s)) by (pose proof (Hwf _ _ Hgd); lia).
+  destruct (created_then_found _ _ _ _ _ _ _ _ _ Hck Hne Hcn) as [Hlk [v [Hgv [Hu Hg]]]].
+  assert (Hdd : is_dotdot n = false).
+  { unfold create_check in Hck. destruct (len n =? 0); [discriminate|]. destruct (has_slash n); [discriminate|].
+    rewrite Hgd in Hck. destruct (i_kind dv); try discriminate. destruct (negb _); [discriminate|].
+    destruct (is_dot n || is_dotdot n) eqn:E; [discriminate|]. apply orb_false_iff in E. apply E. }
+  unfold lookup_reply in Hrp. rewrite (lookup_name_same _ n Hnf Hdd), Hlk in Hrp.
+  unfold stat in Hrp. rewrite Hgv in Hrp. inversion Hrp; subst a. cbn [a_uid a_gid].
+  split; [exact Hu|]. exists dv. split; [exact Hgd | exact Hg].
+Qed.
+
+(* translated from the current source: get_file() precedes set_creds() in the four creating methods,
+   as the model assumes (create_then_lookup / QCreate resolve the parent with root's capabilities) *)
+Lemma descriptor_before_creds : shape_descriptor_before_set_creds = true.
+Proof. vm_compute. reflexivity. Qed.
+
+(* non-vacuity of the hypotheses used above *)
+Definition wit_host : host := mkHost [(10, mkInode (KDir [] 10 false) 511 0 0 [])] 11.
+Definition wit_cfg : cfg := mkCfg true false false false false true 2 true.
+Lemma wit_ok : p_creds (init_state wit_host 10) = root_creds /\ host_wf (p_host (init_state wit_host 10)) /\
+  (exists a io s', create_then_lookup (init_state wit_host 10) 1000 1000 ROOT_ID [110]
+                     (fun c h d => sys_mkdirat c h d [110] 493) = (RpEntry a, io, s') /\ a_uid a = 1000) /\
+  direct_reply wit_cfg (init_state wit_host 10) (QMkdir ROOT_ID [110] 493 0 1000 1000) <> None.
+Proof.
+  split; [reflexivity|]. split.
+  - intros i v H. unfold get, init_state, wit_host in H. cbn [p_host h_nodes assoc] in H. cbn [p_host h_next wit_host init_state].
+    destruct (10 =? i) eqn:E; [apply N.eqb_eq in E; subst i; reflexivity | discriminate H].
+  - split; [|discriminate]. eexists; eexists; eexists. split; [vm_compute; reflexivity | reflexivity].
 Qed.
